@@ -100,7 +100,7 @@ def _build_program(args):
     feats = {"enums": True, "force": force}
     if k < 0:          # the `thisargs` program: class templates using `This` as argument / return everywhere
         feats = {"enums": True, "force": ["template", "template", "enum_nested", "uchar"], "this_args": True,
-                 "class_enum_nested": True, "plain_derive": False, "ref_returns": False, "static_void": False, "shuffle_functions": False, "untidy_layout": False, "char_types": False}
+                 "class_enum_nested": True, "plain_derive": False, "ref_returns": False, "static_void": False, "shuffle_functions": False, "untidy_layout": False, "char_types": False, "enum_overloads": False}
     prog, itext, lib = MP.generate(tape, feats)
     open(os.path.join(d, "prog.i"), "w").write(itext)
     open(os.path.join(d, "lib.h"), "w").write(lib)
@@ -351,7 +351,10 @@ class Hist:
             m, n = v.dims()
             return n == want[1] and (want[0] is None or m == want[0])
         if ty.kind == "enum":
-            return isinstance(v, S.MEnum)
+            if not isinstance(v, S.MEnum):
+                return False
+            en = [x for x in self.prog.enums if x.qname == ty.name]
+            return not en or v.cls == en[0].mname        # a member of THIS enumeration
         if ty.kind == "class":
             return isinstance(v, S.MObject) and any(
                 a == mname(ty.name) for a in self.s.ancestors(v.cls))
